@@ -257,7 +257,7 @@ TRUSTED_BASE = [
     "coqc 8.16.1 kernel (full .vo builds, vm_compute for case evaluation, no native_compute)",
     "stdlib axioms only, where real numbers are used: ClassicalDedekindReals.sig_forall_dec, "
     "ClassicalDedekindReals.sig_not_dec, FunctionalExtensionality.functional_extensionality_dep",
-    "translator/py2coq.py (python ast -> Gallina, fail-closed) for lists.py and iocontract.py",
+    "translator/py2coq.py (python ast -> Gallina, fail-closed per output file) for lists.py, iocontract.py, module constants and the PolyhedralTerm methods of polyhedra.py",
     "correspondence harness (generators, float->Q conversion via as_integer_ratio, LP/sympy recorders, canonicalisation)",
     "hand-written models coq/model/*.v are tied to the code by correspondence only",
     "scipy/HiGHS assumed to meet lp_spec (each recorded answer validated by exact certificates, base/Farkas.v)",
